@@ -625,6 +625,7 @@ package argmapper
 //@   loop 7 invariant planning == old(planning)
 //@   after "result := v.Func.callDirect(log, funcArgMap)" assert [converter-failure-visible] imp(failed != nil, result.buildErr == nil && len(result.out) > 0 && failed == errOf(result.out[len(result.out)-1]))
 //@   before "v.Func.outputValues(result, g.InEdges(v), state)" assert [no-failure-before-propagating-outputs] failed == nil
+//@   before "paths := make([][]graph.Vertex, len(vertexT))" assert [weights-refine-the-documented-table] weightNormal == 1 && weightTyped == 5 && weightTypedOtherSubtype == 20 && weightMatchingName == -1
 
 // value(): the exported description of a vertex (a fresh Value)
 //@ extern (valueConverter).value :: (v any) *Value
